@@ -37,8 +37,8 @@ def syntactic_tags(prog: dict) -> list:
 
     def block(b, depth):
         for st in b:
-            if st["k"] in ("append", "remove") and depth > 0:
-                mutated_nested.add(st["n"])
+            if st["k"] in ("append", "remove", "assign", "aug") and depth > 0:
+                mutated_nested.add(st["n"])          # a list mutated, or a name (str / list) re-assigned, under nesting
             expr({k: v for k, v in st.items() if k not in ("body", "orelse", "branches")})
             for br in st.get("branches", []):
                 expr(br["c"])
